@@ -283,6 +283,13 @@ class CallMixin:  # pylint:disable=too-many-public-methods
                 for n, v in self.model.enum_members(cls).items():
                     if v == val and type(v) is type(val):
                         return EnumVal(name, n, v)
+                missing = self.model.find_method(cls, "_missing_")
+                if missing is not None:  # the enum's own fallback for values that are not a member's value
+                    res_ = self.call(FuncVal(fn=missing, self_obj=ClassVal(name), module=missing.module, raw=True), [val], {}, node, frame)
+                    if isinstance(res_, EnumVal) and res_.cls == name:
+                        return res_
+                    if res_ is not None:
+                        self.raise_("TypeError", f"error in {cls.name}._missing_: returned {res_!r} instead of None or a valid member")
                 raise PyRaise(self.exc("builtins.ValueError", f"{val!r} is not a valid {cls.name}"))
             if self.is_attrs(name) or "typing.NamedTuple" in self.model.mro(name):
                 return self.construct_attrs(cls, args, kwargs, node, frame)
@@ -522,6 +529,8 @@ class CallMixin:  # pylint:disable=too-many-public-methods
                 return v.fields[attr]
             if attr == "__class__":
                 return ClassVal(v.cls)
+            if attr == "__module__" and v.cls in self.model.classes:
+                return self.model.classes[v.cls].module.name
             cls = self.model.classes.get(v.cls)
             if cls is not None:
                 member = self.model.class_member(cls, attr)
@@ -596,6 +605,13 @@ class CallMixin:  # pylint:disable=too-many-public-methods
             cls = self.model.classes.get(v.cls)
             m = self.model.find_method(cls, attr) if cls is not None else None
             if m is not None:
+                decos = [(dotted(d) or "") for d in m.node.decorator_list]
+                if "staticmethod" in decos:
+                    return FuncVal(fn=m, module=m.module)
+                if "classmethod" in decos:
+                    return FuncVal(fn=m, self_obj=ClassVal(v.cls), module=m.module)
+                if "property" in decos or any(d_.endswith("cached_property") for d_ in decos):
+                    return self.run_function(FuncVal(fn=m, self_obj=v, module=m.module), [], {}, node)
                 return FuncVal(fn=m, self_obj=v, module=m.module)
             init = self.model.find_method(cls, "__init__") if cls is not None else None
             if init is not None:
@@ -694,7 +710,7 @@ class CallMixin:  # pylint:disable=too-many-public-methods
                     try:
                         return getattr(r, a)(*args)
                     except ValueError as err:
-                        self.raise_("ValueError", str(err))
+                        self.raise_(type(err).__name__, str(err))
             if a == "join":
                 items = self.iterate(args[0], node, frame)
                 acc: Any = ""
@@ -736,6 +752,13 @@ class CallMixin:  # pylint:disable=too-many-public-methods
                 return Opaque(f"str.{a}")
             self.unsupported(node, frame, f"str.{a}{tuple(args)!r}")
         if isinstance(r, StrT):
+            if a == "encode":
+                enc = (args[0] if args else kwargs.get("encoding", "utf-8"))
+                errors = args[1] if len(args) > 1 else kwargs.get("errors", "strict")
+                total = isinstance(enc, str) and enc.lower().replace("_", "-") in ("utf-8", "utf8", "utf-16", "utf-32", "utf-16-le", "utf-16-be", "utf-32-le", "utf-32-be")
+                if not total and errors == "strict" and self.fork(("encode", repr(r), repr(enc)), f"{r!r} has a character outside {enc}"):
+                    self.raise_("UnicodeEncodeError", f"'{enc}' codec can't encode character")
+                return Opaque(f"{r!r}.encode()", kind="builtins.bytes")
             if a == "strip" and not args:
                 parts = list(r.parts)
                 if isinstance(parts[0], str):
@@ -1057,6 +1080,15 @@ class CallMixin:  # pylint:disable=too-many-public-methods
             v = args[0]
             if isinstance(v, (list, tuple, dict, set, str)):
                 return len(v)
+            if isinstance(v, StrT):
+                key = ("len", repr(v))
+                if key not in self.attr_memo:
+                    self.attr_memo[key] = Opaque(f"len({v!r})", kind="builtins.int")
+                return self.attr_memo[key]
+            if isinstance(v, (Obj, EnumVal)) and v.cls in self.model.classes:
+                m_ = self.model.find_method(self.model.classes[v.cls], "__len__")
+                if m_ is not None:
+                    return self.call(FuncVal(fn=m_, self_obj=v, module=m_.module), [], {}, node, frame)
             self.unsupported(node, frame, f"len({v!r})")
         if short == "repr":
             return self.to_str(args[0], node, frame, repr_mode=True)
@@ -1251,6 +1283,32 @@ class CallMixin:  # pylint:disable=too-many-public-methods
                 return Obj("functools.lru_cache_wrapper", {"fn": args[0], "cache": {}, "maxsize": 128, "order": []})
             ms = kwargs.get("maxsize", args[0] if args else 128)
             return Obj("functools.lru_cache_decorator", {"maxsize": ms})
+        if name == "inspect.getmembers":
+            target = args[0]
+            pred = args[1] if len(args) > 1 else kwargs.get("predicate")
+            tcls = self.class_of(target) if not isinstance(target, ClassVal) else target.name
+            if tcls is None or tcls not in self.model.classes:
+                raise Unsupported(f"inspect.getmembers({target!r})")
+            names = set()
+            for cn in self.model.mro(tcls):
+                c_ = self.model.classes.get(cn)
+                if c_ is not None:
+                    names.update(c_.methods)
+                    names.update(c_.assigns)
+            if isinstance(target, Obj):
+                names.update(k_ for k_ in target.fields if isinstance(k_, str))
+            out_ = []
+            for n_ in sorted(names):
+                val_ = self.getattr(target, n_, node, frame)  # evaluates properties, like the real getmembers
+                if pred is None or self.call(pred, [val_], {}, node, frame):
+                    out_.append((n_, val_))
+            return out_
+        if name in ("inspect.ismethod", "inspect.isfunction", "inspect.isroutine"):
+            v_ = args[0]
+            bound = isinstance(v_, FuncVal) and v_.self_obj is not None
+            if isinstance(v_, FuncVal):
+                return {"inspect.ismethod": bound, "inspect.isfunction": not bound, "inspect.isroutine": True}[name]
+            return isinstance(v_, BoundExt) and name != "inspect.isfunction"
         if name == "logging.getLogger":
             return Opaque("logger", kind="logging.Logger", truthy=True)
         if name.startswith("typing.") or name in ("typing.TypeVar", "typing.cast"):
